@@ -26,11 +26,12 @@ def generate(G):
         ("softmax", "Softmax", [([1, 2], "D2")], False, ("exp",), 6),
         ("matmul", "Matmul { at: false, bt: true, c: false }", [([1, 2], "D2"), ([2, 2], "D2")], False, (), 8),
         ("matmul_c", "Matmul { at: false, bt: true, c: true }", [([1, 2], "D2"), ([2, 2], "D2"), ([2], "D2")], False, (), 8),
+        ("matmul_c1", "Matmul { at: false, bt: true, c: true }", [([1, 2], "D2"), ([1, 2], "D2"), ([1], "D2")], False, (), 8),
         ("conv", "Conv((1, 1))", [([1, 2, 2], "D2"), ([1, 1, 1, 2], "D2")], False, (), 8),
     ]
     quick = {("add", (False, False)), ("add", (True, False)), ("mul", (False, True)), ("div", (False, False)), ("neg", (False,)),
              ("neg", (True,)), ("powf", (False,)), ("sum1", (False,)), ("sum0", (False,)), ("reshape", (True,)), ("relu", (False,)),
-             ("matmul_c", (False, False, True)), ("matmul_c", (False, False, False)), ("matmul", (True, False)),
+             ("matmul_c", (False, False, True)), ("matmul_c", (False, False, False)), ("matmul_c1", (False, False, True)), ("matmul", (True, False)),
              ("conv", (False, False)), ("conv", (False, True)), ("softmax", (False,)), ("exp", (True,))}
     for id, prog, ls, is_view, stubs, unwind in ops:
         for flags in itertools.product([False, True], repeat=len(ls)):
@@ -41,6 +42,7 @@ def generate(G):
                  skeleton={"operation": prog, "operands": [d for d, _ in ls], "tracked": list(flags), "storage_sharing_view": is_view})
     for name, tier, what in [("untracked_root", "quick", "pass started on a result of untracked operands: gradient on that result only"),
                              ("flags_restored", "quick", "a(t) * b(u) + c(t), times a: flags of handles and recorded clones before/after, gradients untracked and graph-free, second pass doubles"),
+                             ("flags_restored_untracked_first", "quick", "u(untracked) * a(tracked): flags of the recorded clones after the pass, second pass from a clone of the root doubles"),
                              ("clone_flags", "quick", "stop/start_tracking and tracked() on clones never change the original")]:
         G.ob("c09_" + name, "C09", name, "c09::%s(s)" % name, unwind=6, tier=tier, skeleton={"what": what})
     # gradient presence with flags on leaves and intermediates: grad obligations
